@@ -47,7 +47,6 @@ Latitude (each use is counted in the evidence):
 
 from __future__ import annotations
 
-import asyncio
 import datetime as _dt
 import hashlib
 import random
@@ -557,8 +556,8 @@ def ev(node: list[Any], m: Msg, count: int, maxuid: int) -> bool:
     if t == 'UID':
         return seqset.contains(seqset.parse(node[1].encode()), m.uid, maxuid)
     if t == 'OID':
-        have = m.emailid if node[1] == 'EMAILID' else m.threadid
-        return have is not None and have == node[2]
+        oid = m.emailid if node[1] == 'EMAILID' else m.threadid
+        return oid is not None and oid == node[2]
     if t == 'NOT':
         return not ev(node[1], m, count, maxuid)
     if t == 'OR':
@@ -667,8 +666,8 @@ class Gen:
 
     def _date(self, sent: bool) -> list[int]:
         rng = self.rng
-        days = [(m.sent if sent else m.idate) for m in self.view.msgs]
-        days = [d for d in days if d is not None]
+        days = [d for d in ((m.sent if sent else m.idate)
+                            for m in self.view.msgs) if d is not None]
         if not days or rng.random() < 0.08:
             return list(rng.choice([(1990, 1, 1), (2040, 12, 31),
                                     (2024, 2, 29)]))
@@ -915,6 +914,10 @@ class Runner:
         s = self.s
         r = await s.cmd(rest, sync=sync or None)
         self.count('search_commands')
+        if sync:
+            self.count('with_sync_literal')
+        if b'+}' in rest:
+            self.count('with_nonsync_literal')
         if r.closed or not s.alive or r.tagged is None:
             self.dead = True
             return ('DEAD', None, wire)
@@ -988,7 +991,7 @@ class Runner:
                             'body': m.body[:160]})
         return out[:4]
 
-    # -- verdicts ---------------------------------------------------------------
+    # -- verdicts -------------------------------------------------------------
 
     async def judge(self, prog: dict[str, Any], uid: bool) \
             -> tuple[str, set[int] | None]:
@@ -1048,6 +1051,8 @@ class Runner:
         if name == 'LIST':
             name = 'conjunction'
         qual = self._qualify(node, res, exp)
+        if not qual and self.view.hidden:
+            qual = '@hidden-view'
         return [(name + qual, {'query': wire, 'got': sorted(res),
                                'expected': sorted(exp),
                                'extra': self._explain(node, res - exp),
@@ -1066,10 +1071,11 @@ class Runner:
         if node[0] == 'HDR' and node[1].lower() == 'date' and extra \
                 and not missing:
             needle = node[2].lower()
+            sent = [by_uid[u].sent for u in extra]
             if needle in [d.lower() for d in DOW] and all(
-                    by_uid[u].sent is not None and
-                    DOW[_dt.date(*by_uid[u].sent).weekday()].lower() == needle
-                    for u in extra):
+                    d is not None and
+                    DOW[_dt.date(*d).weekday()].lower() == needle
+                    for d in sent):
                 # not in the header text, but it is the weekday of the date
                 return ':matches-rerendered-date'
         return ''
@@ -1085,7 +1091,8 @@ class Runner:
             found += await self._blame(k, uid)
         if not found:
             # every top-level key is right on its own
-            found = [('conjunction', {})]
+            found = [('conjunction' + ('@hidden-view' if self.view.hidden
+                                       else ''), {})]
             if prog.get('charset') or prog.get('kcase'):
                 plain = dict(prog, charset=None, kcase=0)
                 c2, r2, _ = await self.ask(plain, uid)
@@ -1188,9 +1195,11 @@ class Runner:
             self.count('undiagnosed_mismatches')
             return
         self.diag_budget -= 1
-        found: list[tuple[str, dict]] = []
-        for k in prog['keys']:
-            found += await self._blame_sequid(k)
+        # if even ALL differs the numbering itself is at fault, not a key
+        found = await self._blame_sequid(['K', 'ALL'])
+        if not found:
+            for k in prog['keys']:
+                found += await self._blame_sequid(k)
         if not found:
             found = [('conjunction', {})]
         seen: set[str] = set()
@@ -1499,7 +1508,7 @@ SCRIPTS = ['uid-search-bare-seqset', 'body-matches-header', 'not-not',
 
 # --------------------------------------------------------------------------
 
-MIN_PER_KEY = 25
+MIN_PER_KEY = 100
 
 
 class C13(Check):
@@ -1527,15 +1536,15 @@ class C13(Check):
         'that lies consistently in FETCH and SEARCH is C03/C10\'s business',
         'sequence numbers beyond the view may be answered BAD; hidden '
         'expunged messages may or may not be reported']
-    floors = dict({'queries_compared': 2500, 'seq_uid_comparisons': 800,
-                   'metamorphic_comparisons': 250, 'hidden_view_queries': 200,
-                   'renumbered_views': 30,
-                   'results_nonempty_nontotal': 1000},
+    floors = dict({'queries_compared': 4000, 'seq_uid_comparisons': 1500,
+                   'metamorphic_comparisons': 600, 'hidden_view_queries': 400,
+                   'latitude_hidden_reported': 1, 'renumbered_views': 60,
+                   'results_nonempty_nontotal': 2000, 'maildir_cases': 20},
                   **{'key_' + k: MIN_PER_KEY for k in ALL_KEYS})
     time_cap = {'quick': 70.0, 'thorough': 600.0}
 
     def cases(self, tier: str, seed: int) -> Iterable[dict[str, Any]]:
-        n = 1500 if tier == 'quick' else 24000
+        n = 2600 if tier == 'quick' else 36000
         rng = random.Random(seed * 15485863 + 13)
         leafs = K_NOARG + K_STR + K_DATE + K_SIZE + K_KW + K_OID + \
             ['HEADER', 'UID', 'SEQSET']
@@ -1556,11 +1565,26 @@ class C13(Check):
     def setup_worker(self) -> None:
         install_glass()
 
+    def extra_evidence(self, agg: dict[str, Any]) -> dict[str, Any]:
+        c = agg.get('counters', {})
+        per_key = {k: c.get('key_' + k, 0) for k in ALL_KEYS}
+        least = min(per_key, key=lambda k: per_key[k])
+        return {
+            'keys_supported': len(ALL_KEYS),
+            'keys_exercised': sum(1 for v in per_key.values() if v),
+            'least_used_key': {least: per_key[least]},
+            'latitude_used': {k[len('latitude_'):]: v for k, v in c.items()
+                              if k.startswith('latitude_')},
+            'queries_compared_with_evaluator': c.get('queries_compared', 0),
+            'seq_vs_uid_comparisons': c.get('seq_uid_comparisons', 0),
+            'metamorphic_comparisons': c.get('metamorphic_comparisons', 0)}
+
     def run_case(self, spec: dict[str, Any]) -> dict[str, Any]:
         random.seed(spec.get('seed', 0))
         hist = History(str(spec.get('seed', 0)))
         counters: dict[str, int] = {}
         shapes: list[str] = []
+        counters[spec.get('backend', 'dict') + '_cases'] = 1
 
         async def main(loop: L.CtlLoop) -> None:
             if 'script' in spec:
